@@ -246,6 +246,16 @@ static int set_attribs(sqfs_xattr_reader_t *xattr,
 	ret = canonicalize_name(path);
 	assert(ret == 0);
 
+	/* change the owner first: the kernel drops security.capability on chown */
+	if (flags & UNPACK_CHOWN) {
+		if (fchownat(AT_FDCWD, path, n->uid, n->gid,
+			     AT_SYMLINK_NOFOLLOW)) {
+			fprintf(stderr, "chown %s: %s\n",
+				path, strerror(errno));
+			goto fail;
+		}
+	}
+
 #ifdef HAVE_SYS_XATTR_H
 	if ((flags & UNPACK_SET_XATTR) && xattr != NULL) {
 		if (set_xattr(path, xattr, n))
@@ -268,15 +278,6 @@ static int set_attribs(sqfs_xattr_reader_t *xattr,
 		}
 	}
 #endif
-	if (flags & UNPACK_CHOWN) {
-		if (fchownat(AT_FDCWD, path, n->uid, n->gid,
-			     AT_SYMLINK_NOFOLLOW)) {
-			fprintf(stderr, "chown %s: %s\n",
-				path, strerror(errno));
-			goto fail;
-		}
-	}
-
 	if (flags & UNPACK_CHMOD && !S_ISLNK(n->inode->base.mode)) {
 		if (fchmodat(AT_FDCWD, path,
 			     n->inode->base.mode & ~S_IFMT, 0)) {
